@@ -17,8 +17,8 @@ if [ -n "$ONE" ]; then (ulimit -v 60000000; VERIF_ROOT="$W/verif" ./target/relea
 # the process itself died: same procedure as in ./check (single worker with a trace file, then abort-replay)
 case $RC in 0|1|2) ;; *)
   mkdir -p "$W/verif/replays"
-  (ulimit -v 60000000; VERIF_TRACE_FILE="$W/trace" VERIF_ROOT="$W/verif" ./target/release/a2lsim check "$PROP" "$TIER" > /dev/null 2>&1); RC2=$?
-  case $RC2 in 0|1|2) echo "abnormal end (status $RC) did not repeat with a single worker (status $RC2)";; *)
+  (ulimit -v 60000000; VERIF_TRACE_FILE="$W/trace" VERIF_ROOT="$W/verif" ./target/release/a2lsim check "$PROP" "$TIER" > "$W/check1.log" 2>&1); RC2=$?
+  case $RC2 in 1) cp "$W/check1.log" "$W/check.log"; RC=1; echo "abnormal end with 16 workers; with a single worker the check reports a violation in the ordinary way";; 0|2) echo "abnormal end (status $RC) did not repeat with a single worker (status $RC2)";; *)
     read -r SI RI < "$W/trace"
     VERIF_ROOT="$W/verif" ./target/release/a2lsim abort-replay "$PROP" "$SI" "$RI" "$TIER" "exit status $RC2" >> "$W/check.log" 2>&1; RC=$?
     grep -a -A1 '^violation:' "$W/check.log" | tail -2 | cut -c1-260;;
